@@ -324,6 +324,10 @@ def event(fn, args, site=None, feat=None, timeout=30):
         raise
     except CallTimeout:
         e = {"op": fn, "sr": srmodel(args.get("sr", "Bool")), "exc": "Timeout"}
+        if fn == "wop" and args.get("fn") in ("determinize", "min_det"):
+            # C13 speaks about determinisation "whenever it terminates": no answer within the time-out
+            # puts the input outside the property's domain; it is counted, not judged
+            e["skip"] = "determinization-did-not-terminate-in-time"
     except Exception as ex:  # noqa: BLE001
         e = {"op": fn, "sr": srmodel(args.get("sr", "Bool")), "exc": type(ex).__name__, "note": str(ex)[:200]}
     e["call"] = call
